@@ -607,6 +607,13 @@ func bigIntSequence(t *mon.T, r *rng.R, n int) {
 			t.Nontrivial(fmt.Sprintf("%s|%s|%s", bm.name, abbrevS(before[a.x]), abbrevS(before[a.y])))
 		}
 	}
+	if t.WantSample() {
+		final := []string{}
+		for i := range m {
+			final = append(final, abbrevS(m[i].String()))
+		}
+		t.Sample(map[string]interface{}{"sequence_length": n, "last_calls": trace, "final_pool": final, "mathbigint_values_held_for_stability_check": len(kept)})
+	}
 	growStack(40 + r.Intn(200))
 	for i := range kept {
 		if kept[i].String() != keptWant[i] {
@@ -642,7 +649,7 @@ func runC16(r *mon.Run) {
 		"negative zero, inline words equal |value|, no shared heap big.Int); sequences run in fresh goroutines with deep recursion and GC " +
 		"cycles, and values obtained through MathBigInt must stay stable. distinct_nontrivial = distinct (method, operand values) that changed a slot."
 	r.Assumptions = []string{"math/big.Int is the specification", "calls outside math/big's documented domain (division by zero, negative Sqrt, QuoRem with r aliasing y or z) are skipped"}
-	r.Parallel("sequences", r.N(12000, 1200000), func(t *mon.T) {
+	r.Parallel("sequences", r.N(8000, 1200000), func(t *mon.T) {
 		done := make(chan struct{})
 		go func() { // fresh goroutine: small stack that has to grow
 			defer close(done)
